@@ -8,7 +8,8 @@ open Lean EinoV EinoV.C15
 
 /-- {"k":"str"|"int"|"any"} | {"k":"ptr"|"map","e":T} | {"k":"struct","name":s,"fields":[{"n":s,"t":T}]}
     | {"k":"opq","kind":"slice"|"func"|"chan","name":s} (a non-nil value of an opaque type travels
-    as {"k":"str","s":token}) -/
+    as {"k":"str","s":token}) | {"k":"iface","name":s,"impls":[s]} (a non-empty interface and the
+    spellings of the types that implement it) -/
 partial def parseTy (j : Json) : JE FTy := do
   match (← J.str j "k") with
   | "str" => pure .str
@@ -27,6 +28,8 @@ partial def parseTy (j : Json) : JE FTy := do
       | "chan" => pure OKind.chan
       | k => throw s!"bad opaque kind {k}"
     pure (.opq kind (← J.str j "name"))
+  | "iface" => do
+    pure (.iface (← J.str j "name") (← (J.arrD j "impls").mapM J.asStr))
   | k => throw s!"bad type kind {k}"
 
 partial def parseVal (j : Json) : JE FVal := do
@@ -54,6 +57,7 @@ partial def renderTy : FTy → Json
   | .struct n fs => Json.mkObj [("k", "struct"), ("name", n), ("fields", J.mkArr (renderFields fs))]
   | .opq k n => Json.mkObj [("k", "opq"),
       ("kind", match k with | .slice => "slice" | .func => "func" | .chan => "chan"), ("name", n)]
+  | .iface n is => Json.mkObj [("k", "iface"), ("name", n), ("impls", J.mkStrs is)]
 partial def renderFields : FFields → List Json
   | .nil => []
   | .cons n t r => Json.mkObj [("n", n), ("t", renderTy t)] :: renderFields r
